@@ -372,6 +372,29 @@ def run(ctx):
                fail=f"`{norm(n_)[:50]}` runs only after `{dirty[0] if dirty else ''}`: a cancellation / caller timeout there leaves an authenticated session whose "
                     "credentials were never cached - after the next connection loss every exchange fails with 'Token and key must be supplied'")
     ctx.require_min("credential_store_sites", 1)
+    # ---- C08.g "... including re-authentication on V3": a connection that has already negotiated a key is re-keyed in place (12 h expiry, an
+    # explicit authenticate()), so the response to a *pending* handshake is accepted whatever session state the connection holds - the only
+    # instance state the acceptance may depend on is the pending flag itself.  A guard that also wants `_local_key is None` refuses every
+    # re-handshake; authentication errors do not disconnect, so every later exchange on that connection fails the same way.
+    ppk = prog.funcs.get("msmart.lan._LanProtocolV3._process_packet")
+    if ppk is not None:
+        from ..ctor import init_attrs
+        try:
+            state_attrs = set(init_attrs(prog, ppk.cls))
+        except AnalysisError:
+            state_attrs = set()
+        n_hs = 0
+        for pc_, t_, n_, _st in summarize(prog, ppk).returns:
+            if n_ is None or not any(call_is(x, "msmart.lan._LanProtocolV3._decode_handshake_response") for x in subterms(t_)):
+                continue
+            n_hs += 1
+            extra = sorted({x[2] for a_ in atoms(pc_) for x in subterms(a_)
+                            if x[0] == "attr" and x[1] == ("param", ppk.params[0]) and x[2] in state_attrs and x[2] != "_handshake_pending"})
+            ctx.ob("C08.g", ppk.qual, not extra, "the response to a pending handshake is accepted whatever session state the connection holds (re-keying in place)",
+                   func=ppk.qual, file=file, node=n_, detail={"also_depends_on": extra},
+                   fail=f"a pending handshake's response is only accepted depending on {', '.join('self.' + x for x in extra)}: a re-handshake on a connection that "
+                        "already holds a key (12 h expiry, explicit authenticate) is refused, and every later exchange on that connection fails the same way")
+        ctx.count("handshake_accept_paths", n_hs)
     # ---- C08.e every read of the exchange is bounded by its timeout: the wait on the receive queue is a wait_for with the caller's timeout,
     # and a timeout of that wait reaches the retry loop as a timeout (nothing between the wait and LAN.send swallows it or waits again)
     from ..helpers import with_helpers
